@@ -165,7 +165,7 @@ theorem safe_completeCircular (H : RdHyp S U cfg) (start : Nat) (cands : List Te
     ∀ (fuel i : Nat) (s : Ed), RdInv cfg s → IsBoundary s.line.buf start → start ≤ s.line.pos →
       RSafe cfg (completeCircular S U cfg start cands mark backup backupPos fuel i) s := by
   intro fuel
-  induction fuel with
+  induction fuel generalizing mark with
   | zero =>
     intro i s _ _ _
     unfold RSafe completeCircular
@@ -192,12 +192,13 @@ theorem safe_completeCircular (H : RdHyp S U cfg) (start : Nat) (cands : List Te
       refine wp_refreshLine_inv S U cfg H.hnp h1 fun s2 h2 hc2 => ?_
       obtain ⟨l2, _⟩ := Ed.core_eq hc2
       refine wp_nextCmd_inv S U cfg H.hnp h2 fun cmd s3 h3 hc3 => ?_
+      rw [wp_lowerMark]
       obtain ⟨l3, _⟩ := Ed.coreNC_eq hc3
       have hb3 : IsBoundary s3.line.buf start := by rw [l3, l2]; exact hb1
       have hle3 : start ≤ s3.line.pos := by rw [l3, l2]; exact hle1
       split
-      · exact ih _ s3 h3 hb3 hle3
-      · exact ih _ s3 h3 hb3 hle3
+      · exact ih _ _ s3 h3 hb3 hle3
+      · exact ih _ _ s3 h3 hb3 hle3
       · by_cases hlt' : i < cands.length
         · rw [if_pos hlt']
           simp only [wp_bind]
@@ -310,7 +311,7 @@ theorem safe_searchLoop (H : RdHyp S U cfg) (mark : Nat) (backup : Text) (backup
     ∀ (fuel : Nat) (sb : Text) (hi : Nat) (d : Dir) (succ : Bool) (s : Ed), RdInv cfg s →
       RSafe cfg (searchLoop S U cfg mark backup backupPos fuel sb hi d succ) s := by
   intro fuel
-  induction fuel with
+  induction fuel generalizing mark with
   | zero =>
     intro sb hi d succ s _
     unfold RSafe searchLoop
@@ -322,31 +323,32 @@ theorem safe_searchLoop (H : RdHyp S U cfg) (mark : Nat) (backup : Text) (backup
     simp only [wp_bind]
     refine wp_refreshPromptAndLine_inv S U cfg H.hnp _ h fun s2 h2 _ => ?_
     refine wp_nextCmd_inv S U cfg H.hnp h2 fun cmd s3 h3 _ => ?_
-    have hds : ∀ (sb : Text) (hi : Nat) (d : Dir),
+    rw [wp_lowerMark]
+    have hds : ∀ (mark : Nat) (sb : Text) (hi : Nat) (d : Dir),
         wp (match (memHist cfg).search sb hi d with
             | some (idx, entry, pos) => do
               lb S U (LB.update S U entry pos)
               searchLoop S U cfg mark backup backupPos fuel sb idx d true
             | none => searchLoop S U cfg mark backup backupPos fuel sb hi d false)
           (fun _ s' => RdInv cfg s') PE s3 := by
-      intro sb hi d
+      intro mark sb hi d
       cases hs : (memHist cfg).search sb hi d with
-      | none => exact ih _ _ _ _ s3 h3
+      | none => exact ih _ _ _ _ _ s3 h3
       | some r =>
         obtain ⟨idx, entry, pos⟩ := r
         obtain ⟨_, ⟨a, b, he, hoff⟩, _⟩ := C09_search_sound _ _ _ _ _ _ _ hs
         have hb : IsBoundary entry pos := ⟨a, sb ++ b, by rw [he]; simp, hoff⟩
         simp only [wp_bind]
-        exact wp_lb_update_inv S U cfg hb h3 fun s4 h4 _ _ => ih _ _ _ _ s4 h4
+        exact wp_lb_update_inv S U cfg hb h3 fun s4 h4 _ _ => ih _ _ _ _ _ s4 h4
     split
-    · exact hds _ _ _
-    · exact ih _ _ _ _ s3 h3
+    · exact hds _ _ _ _
+    · exact ih _ _ _ _ _ s3 h3
     · split
-      · exact hds _ _ _
-      · exact ih _ _ _ _ s3 h3
+      · exact hds _ _ _ _
+      · exact ih _ _ _ _ _ s3 h3
     · split
-      · exact hds _ _ _
-      · exact ih _ _ _ _ s3 h3
+      · exact hds _ _ _ _
+      · exact ih _ _ _ _ _ s3 h3
     · simp only [wp_bind]
       refine wp_lb_update_inv S U cfg hbp h3 fun s4 h4 _ _ => ?_
       refine wp_refreshLine_inv S U cfg H.hnp h4 fun s5 h5 _ => ?_
